@@ -22,6 +22,8 @@ C = {
          "trusted: TLC; sequentially consistent interleavings (single-location RMW, see DESIGN.md 8); AIMD ceiling abstracted to any value within bounds", 'atomic-step'),
  'C13': ("Two halves. Limit bounds: spec/LimitImpl.tla (AIMD and Vegas load/compute/store, Vegas outcome nondeterministic) model-checked for 3 threads over all (min, initial, max, inc, factor); the real Aimd and Vegas run under the atomic-step scheduler and TLC validates min <= limit <= max after every single atomic operation. Service: spec/Adaptive.tla (exact in-flight count, readiness iff in_flight < limit, limit read from the implementation); TLC-generated behaviours and seeded random schedules with drops, panics and readiness probes run in the real AdaptiveService and every trace is validated.",
          "trusted: TLC, tokio paused clock; the limit dynamics are not specified beyond the bounds", 'atomic-step'),
+ 'C05': ("spec/Retry.tla is the retry loop (attempt counter, predicate, per-request max_attempts, backoff schedule, token-bucket budget shared by several requests); TLC explores all outcome sequences and interleavings of 2 requests over a grid of configurations (max_attempts 0..3, both predicates, fixed/exponential backoff, budgets 0..2). TLC-generated behaviours and seeded random schedules run in the real RetryLayer under the simulator; every poll's inner starts, the instant of every retry (never before the backoff is over), the returned payload (serial number of the last attempt) and budget.balance() after every step must equal the spec's.",
+         "trusted: TLC, tokio paused clock; integer-millisecond backoffs with multiplier 2", 'sim'),
 }
 def main():
     props = [json.loads(l) for l in open(os.path.join(ROOT, 'properties.jsonl'))]
